@@ -67,6 +67,22 @@ class EvSyncWorker(SyncWorker):
             s.ev(current_task().name, "handle-end", client.fd)
 
 
+def gevent_worker_class():
+    """The real GeventWorker on the gevent shim (simkit.gevent_shim); overrides only emit simulator events."""
+    from simkit import gevent_shim
+    gg = gevent_shim.install(seams)
+
+    class EvGeventWorker(gg.GeventWorker):
+        def handle(self, listener, client, addr):
+            s = facade.sim()
+            s.ev(current_task().name, "handle-begin", client.fd)
+            try:
+                return super().handle(listener, client, addr)
+            finally:
+                s.ev(current_task().name, "handle-end", client.fd)
+    return EvGeventWorker
+
+
 class Client:
     """A scripted peer: runs as a task of the pseudo-process 'clients'."""
 
@@ -339,7 +355,7 @@ class WorkerWorld:
         seams.TIME.sleep(1e7)
 
     def start_worker(self):
-        cls = {"sync": EvSyncWorker, "gthread": EvThreadWorker}[self.kind]
+        cls = gevent_worker_class() if self.kind == "gevent" else {"sync": EvSyncWorker, "gthread": EvThreadWorker}[self.kind]
 
         def main():
             cfg = Config()
